@@ -7,6 +7,7 @@ package main
 
 import (
 	"context"
+	"errors"
 	"flag"
 	"fmt"
 	"log/slog"
@@ -35,13 +36,15 @@ type ev struct {
 }
 
 type dest struct {
-	log     *evlog.Log
-	bufs    sync.Map
-	expect  sync.Map // record id -> masked expected line
-	kind    string
-	dwellNs int64
-	rngMu   sync.Mutex
-	rng     *rand.Rand
+	log       *evlog.Log
+	bufs      sync.Map
+	expect    sync.Map // record id -> masked expected line
+	kind      string
+	dwellNs   int64
+	failEvery int
+	fast      bool
+	rngMu     sync.Mutex
+	rng       *rand.Rand
 }
 
 var idRe = regexp.MustCompile(`rec#(\d+)#`)
@@ -103,6 +106,9 @@ func (d *dest) Write(p []byte) (int, error) {
 	b.Emit(e)
 	d.rngMu.Lock()
 	x := d.rng.Intn(10)
+	if d.fast {
+		x = 8 // no dwell: the goroutines spend their time formatting concurrently instead of queueing at the lock
+	}
 	d.rngMu.Unlock()
 	switch {
 	case x < 4:
@@ -110,11 +116,15 @@ func (d *dest) Write(p []byte) (int, error) {
 	case x < 7:
 		time.Sleep(time.Duration(d.dwellNs))
 	}
+	fail := d.failEvery > 0 && x == 9 && d.rng.Intn(d.failEvery) == 0
 	// the payload must still be what it was at entry (a recycled buffer would change under us)
 	if string(p) != s {
 		b.Emit(ev{E: "wchanged", G: g, R: e.R, N: len(p)})
 	}
 	b.Emit(ev{E: "we", G: g})
+	if fail {
+		return 0, errors.New("destination failure (injected)") // the record still counts as written once
+	}
 	return len(p), nil
 }
 
@@ -151,7 +161,90 @@ func apply(l *logger.Logger, chain []chainItem) *logger.Logger {
 
 var levels = []slog.Level{logger.LevelDebug, logger.LevelInfo, logger.LevelWarn, logger.LevelError, logger.LevelFatal}
 
+// hammer: 8 goroutines log a few fixed records several hundred thousand times through loggers SHARED by all of
+// them (root, With-derived, WithGroup-derived, nested groups), each goroutine with its own keys.  The
+// destination checks every payload against the lines those records give when logged alone; only anomalies
+// and the totals go into the trace (TLC rules "hbad" / "hsum").
+type hammerDest struct {
+	kind   string
+	legal  map[string]bool
+	mu     sync.Mutex
+	writes int
+	inside int
+	bad    []string
+}
+
+func (h *hammerDest) Write(p []byte) (int, error) {
+	h.mu.Lock()
+	h.inside++
+	if h.inside > 1 && len(h.bad) < 5 {
+		h.bad = append(h.bad, "two Write calls overlap")
+	}
+	h.writes++
+	if !h.legal[mask(h.kind, string(p))] && len(h.bad) < 5 {
+		s := string(p)
+		if len(s) > 300 {
+			s = s[:300]
+		}
+		h.bad = append(h.bad, s)
+	}
+	h.inside--
+	h.mu.Unlock()
+	return len(p), nil
+}
+
+func hammer(kind string, perG int, rng *rand.Rand) map[string]any {
+	const G = 8
+	hd := &hammerDest{kind: kind, legal: map[string]bool{}}
+	root := logger.New(mkHandler(kind, hd, logger.LevelInfo))
+	chains := [][]chainItem{{}, {{group: "grp"}}, {{attrs: []any{"svc", "api"}}}, {{group: "app"}, {group: strings.Repeat("d", 20)}}, {{group: "g"}, {attrs: []any{"k", "v"}}}}
+	var shared []*logger.Logger
+	for _, ch := range chains {
+		shared = append(shared, apply(root, ch))
+	}
+	type rec struct {
+		lg   *logger.Logger
+		msg  string
+		args []any
+	}
+	recs := make([][]rec, G)
+	for g := 0; g < G; g++ {
+		for j := 0; j < 6; j++ {
+			ci := rng.Intn(len(chains))
+			key := strings.Repeat(string(rune('a'+g)), 4+rng.Intn(24)) // every goroutine has its own keys
+			msg := fmt.Sprintf("hammer-%d-%d", g, j)
+			args := []any{key, g*100 + j, slog.String(key+"2", strings.Repeat(string(rune('A'+g)), rng.Intn(12)))}
+			c := &captureOne{}
+			apply(logger.New(mkHandler(kind, c, logger.LevelInfo)), chains[ci]).Info(msg, args...)
+			hd.legal[mask(kind, c.line)] = true
+			recs[g] = append(recs[g], rec{shared[ci], msg, args})
+		}
+	}
+	var wg sync.WaitGroup
+	start := make(chan struct{})
+	for g := 0; g < G; g++ {
+		wg.Add(1)
+		go func(g int) {
+			defer wg.Done()
+			<-start
+			for i := 0; i < perG; i++ {
+				r := recs[g][i%len(recs[g])]
+				r.lg.Info(r.msg, r.args...)
+			}
+		}(g)
+	}
+	close(start)
+	wg.Wait()
+	evs := []any{}
+	for _, b := range hd.bad {
+		evs = append(evs, map[string]any{"e": "hbad", "g": 0, "r": 0, "en": false, "same": false, "nl": 0, "last": false, "n": 0, "x": b})
+	}
+	evs = append(evs, map[string]any{"e": "hsum", "g": 0, "r": hd.writes, "en": false, "same": false, "nl": 0, "last": false, "n": G * perG, "x": ""})
+	return map[string]any{"kind": kind, "evs": evs, "threshold": 4, "hammer": true}
+}
+
 func main() {
+	hammerN := flag.Int("hammer", 40000, "records per goroutine in the hammer phase")
 	out := flag.String("out", "traces.ndjson", "")
 	runs := flag.Int("runs", 3, "runs per handler kind")
 	ng := flag.Int("goroutines", 8, "")
@@ -160,13 +253,35 @@ func main() {
 	rng := rand.New(rand.NewSource(vio.Seed()))
 	w := vio.Create(*out)
 	defer w.Close()
+	for _, kind := range []string{"nano", "text", "json"} {
+		w.Put(hammer(kind, *hammerN, rng))
+	}
 	for run := 0; run < *runs; run++ {
 		for _, kind := range []string{"nano", "text", "json"} {
 			threshold := levels[rng.Intn(4)]
 			d := &dest{log: evlog.New(), kind: kind, dwellNs: int64(20+rng.Intn(200)) * 1000, rng: rand.New(rand.NewSource(rng.Int63()))}
+			if run%2 == 1 {
+				d.failEvery = 3 // some Write calls report an error
+			}
+			d.fast = false
+			nrecRun := *nrec
+			if d.fast {
+				nrecRun = *nrec * 3
+			}
 			root := logger.New(mkHandler(kind, d, threshold))
 			// loggers derived before the run
 			pre := [][]chainItem{{}, {{attrs: []any{"svc", "api", slog.Int("shard", 3)}}}, {{group: "req"}, {attrs: []any{"k", strings.Repeat("v", 40)}}}}
+			// loggers shared by all goroutines (derived once, before the run)
+			type sharedLogger struct {
+				l     *logger.Logger
+				chain []chainItem
+			}
+			var shared []sharedLogger
+			for _, ch := range [][]chainItem{{}, {{group: "req"}}, {{group: "app"}, {group: "db"}}, {{attrs: []any{"svc", "api"}}, {group: "g"}}} {
+				shared = append(shared, sharedLogger{apply(root, ch), ch})
+			}
+			var fastBarrier sync.WaitGroup
+			fastBarrier.Add(*ng)
 			var nextID int64
 			var idMu sync.Mutex
 			var wg sync.WaitGroup
@@ -179,7 +294,44 @@ func main() {
 					b, gid := d.buf()
 					chain := append([]chainItem(nil), pre[r.Intn(len(pre))]...)
 					l := apply(root, chain)
-					for k := 0; k < *nrec; k++ {
+					if d.fast {
+						// precompute the records, then hammer the shared loggers in a tight loop (maximal overlap of formatting)
+						type prepared struct {
+							id    int
+							lg    *logger.Logger
+							level slog.Level
+							msg   string
+							args  []any
+							en    bool
+						}
+						var recs []prepared
+						for k := 0; k < nrecRun; k++ {
+							idMu.Lock()
+							nextID++
+							id := int(nextID)
+							idMu.Unlock()
+							level := levels[1+r.Intn(3)]
+							sh := shared[1+r.Intn(len(shared)-1)]
+							msg := fmt.Sprintf("rec#%d#", id)
+							args := []any{fmt.Sprintf("key%d", id%11), id, slog.String(fmt.Sprintf("s%d", id%13), strings.Repeat("v", id%9))}
+							en := level >= threshold
+							if en {
+								c := &captureOne{}
+								apply(logger.New(mkHandler(kind, c, threshold)), sh.chain).Log(context.Background(), level, msg, args...)
+								d.expect.Store(id, mask(kind, c.line))
+							}
+							recs = append(recs, prepared{id, sh.l, level, msg, args, en})
+						}
+						fastBarrier.Done()
+						fastBarrier.Wait()
+						for _, p := range recs {
+							b.Emit(ev{E: "lb", G: gid, R: p.id, En: p.en})
+							p.lg.Log(context.Background(), p.level, p.msg, p.args...)
+							b.Emit(ev{E: "le", G: gid, R: p.id})
+						}
+						return
+					}
+					for k := 0; k < nrecRun; k++ {
 						if r.Intn(6) == 0 { // derive during the run
 							it := chainItem{attrs: []any{fmt.Sprintf("d%d", k), r.Intn(1000)}}
 							if r.Intn(3) == 0 {
@@ -204,16 +356,25 @@ func main() {
 						if r.Intn(4) > 0 && size > 1100 {
 							size = 100
 						}
+						if d.fast && size > 100 {
+							size = r.Intn(30)
+						}
 						msg := fmt.Sprintf("rec#%d#", id)
-						args := []any{"pad", strings.Repeat(string(rune('a'+id%26)), size), slog.Int("n", id)}
+						// keys differ from record to record, so key bytes of one record showing up in another are visible
+						args := []any{fmt.Sprintf("pad%d", id%7), strings.Repeat(string(rune('a'+id%26)), size), slog.Int(fmt.Sprintf("n%d", id%5), id)}
+						useLogger, useChain := l, chain
+						if r.Intn(2) == 0 { // through a logger object shared with the other goroutines
+							sh := shared[r.Intn(len(shared))]
+							useLogger, useChain = sh.l, sh.chain
+						}
 						enabled := level >= threshold
 						if enabled { // what this very call writes when logged alone on a fresh identical chain
 							c := &captureOne{}
-							apply(logger.New(mkHandler(kind, c, threshold)), chain).Log(context.Background(), level, msg, args...)
+							apply(logger.New(mkHandler(kind, c, threshold)), useChain).Log(context.Background(), level, msg, args...)
 							d.expect.Store(id, mask(kind, c.line))
 						}
 						b.Emit(ev{E: "lb", G: gid, R: id, En: enabled})
-						l.Log(context.Background(), level, msg, args...)
+						useLogger.Log(context.Background(), level, msg, args...)
 						b.Emit(ev{E: "le", G: gid, R: id})
 					}
 				}(g)
